@@ -4,10 +4,4 @@ CONSTANTS
   Spectra = {"distinct", "equal", "pairs", "wide"}
   Shears = {"none", "chain", "fan", "mixed"}
 INVARIANT Verdict
-INVARIANT InverseOK
-INVARIANT SimilarityOK
-INVARIANT PositiveOK
-INVARIANT TraceOK
-INVARIANT RootOK
-INVARIANT TypeOK
 CHECK_DEADLOCK FALSE
